@@ -468,8 +468,8 @@ func (i *Interface) SetRelativateExpiry(key string, duration int64) error {
 	r.Lock()
 	defer r.Unlock()
 
-	i.options.Apply(r)
 	r.Meta().SetRelativateExpiry(duration)
+	i.options.Apply(r)
 	return db.Put(r)
 }
 
